@@ -374,6 +374,10 @@ pub fn build<const N: usize, const L: usize>(p: &Plain<N>, ntrades: usize) -> Or
     let state: OrderBookState<L> = OrderBookState { t: p.t, tick_size: p.tick, trade_vol: p.trade_vol, orders, trades, trading: p.trading };
     match OrderBook::<L>::try_from(state) {
         Ok(mut b) => {
+            // the state every harness continues from is a LOADED book: what was stored is what is restored
+            // (a scalar lost or defaulted here would otherwise only show as an unreachable cover)
+            vcheck!(b.t == p.t && b.trading == p.trading && b.tick_size == p.tick && b.trade_vol == p.trade_vol && b.orders.len() == p.n && b.trades.len() == ntrades,
+                "LOAD.clock_flag_tick_counter_and_record_counts_restored_as_stored");
             let ahead = any_u64();
             assume(ahead < Nanos::MAX - 8);
             if ahead > b.next_queue_time {
